@@ -202,6 +202,21 @@ def raw_input(case):
     und = case.get("und")
     if not und:
         return G
+    if und == "multidi":                                       # a DIRECTED multigraph: returned as it is by _as_bipartite; parallel arcs accumulate
+        U = nx.MultiDiGraph()
+        U.add_nodes_from(G.nodes(data=True))
+        for u, v, d in G.edges(data=True):
+            U.add_edge(u, v, **d)
+        edges = sorted(G.edges(), key=repr)
+        for k, role, st in case.get("par", []):
+            u, v = edges[k % len(edges)]
+            d = dict(role=role)
+            if st is not None:
+                d["stoich"] = st
+            if k % 2:
+                u, v = v, u
+            U.add_edge(u, v, **d)
+        return U
     U = nx.MultiGraph() if und == "multi" else nx.Graph()      # built edge by edge: nx.MultiGraph(DiGraph) drops one of u->v, v->u
     U.add_nodes_from(G.nodes(data=True))
     for u, v, d in G.edges(data=True):
@@ -243,6 +258,9 @@ def raw_cases(rng, count):
             out.append(dict(kind="raw-graph", name="raw-und/multi-parallel/%d" % k, rxns=rx, iso=[], view="bip_int", mut=["none"], pick=k,
                             und="multi", par=par))
             k += 1
+            out.append(dict(kind="raw-graph", name="raw-multidi/parallel/%d" % k, rxns=rx, iso=[], view="bip_str" if k % 2 else "bip_int",
+                            mut=["none"], pick=k, und="multidi", par=par))
+            k += 1
     pool = [(l, r) for l, r in G.alphabet_reactions()]
     for j in range(count):
         nr = rng.randint(1, 4)
@@ -254,7 +272,7 @@ def raw_cases(rng, count):
         if z < 0.2:
             c["und"] = "graph"
         elif z < 0.45:
-            c["und"] = "multi"
+            c["und"] = rng.choice(["multi", "multi", "multidi"])
             c["par"] = [[rng.randrange(8), rng.choice(["reactant", "product", "product", None]), rng.choice([None, 1, 2, 3])]
                         for _ in range(rng.randint(0, 3))]
         out.append(c)
